@@ -5,7 +5,7 @@ from vf.gen import Module
 A_NUM = "01.-+eE_ /nNaAiIfFjJ"
 A_ISO = "0129-:T.+Z W"
 A_RE = "ab(*)[?+{1}|"
-A_B64 = "QU=-"
+A_B64 = "QU=-\x81"
 SCALARS = {
     "int": ("int", "sym", A_NUM),
     "float": ("float", "sym", A_NUM),
@@ -157,7 +157,9 @@ BODY = {
 # sym-run restrictions: loaders whose lax path feeds C constructors get strings / containers from the selector runs only
 SYM_PRE = {
     ("float", False): ["not isinstance(d, (str, bytes))"],
-    ("int", False): ["not isinstance(d, (str, bytes))"],
+    ("int", False): ["not isinstance(d, (str, bytes, float))"],
+    ("bytes", True): ["not isinstance(d, str)"], ("bytes", False): ["not isinstance(d, str)"],
+    ("bytearray", True): ["not isinstance(d, str)"], ("bytearray", False): ["not isinstance(d, str)"],
     ("str", False): ["kind == 0", "d is None or isinstance(d, (str, bool))"],
     ("LiteralString", False): ["kind == 0", "d is None or isinstance(d, (str, bool))"],
 }
